@@ -184,6 +184,9 @@ func (s *Search) Run() {
 					for oi, op := range s.Alphabet {
 						np := append(append([]Op{}, p...), op)
 						c := Case{Config: s.Cfg.Name, Prefix: s.PrefixID, Path: s.fullPath(np)}
+						if j.Skip(c) {
+							continue
+						}
 						j.Begin(slot, s.Part.Property, s.Check, c)
 						w := Replay(s.Cfg, s.fullPath(p))
 						var pre *Pre
@@ -251,6 +254,9 @@ func (s *Search) Run() {
 							return
 						}
 						c := Case{Config: s.Cfg.Name, Prefix: s.PrefixID, Path: s.fullPath(next[i]), Probe: "state"}
+						if j.Skip(c) {
+							continue
+						}
 						j.Begin(slot, s.Part.Property, s.Check, c)
 						s.OnState(Replay(s.Cfg, c.Path), c)
 						j.End(slot)
